@@ -372,18 +372,31 @@ func (f *FS) Rename(cwd, oldp, newp string) error {
 	if e != 0 {
 		return &os.LinkError{Op: "rename", Old: oldp, New: newp, Err: e}
 	}
-	if on == nil {
-		return &os.LinkError{Op: "rename", Old: oldp, New: newp, Err: syscall.ENOENT}
-	}
+	// (the kernel resolves both parent directories before it looks at the old
+	// name itself; Go's os.Rename refuses any existing directory as new name)
 	np, nname, nn, nabs, e := f.walk(cwd, newp)
+	if nn != nil && nn.Kind == KDir && e == 0 {
+		if on == nil {
+			return &os.LinkError{Op: "rename", Old: oldp, New: newp, Err: syscall.ENOENT}
+		}
+		if newp == oldp || nn != on {
+			return &os.LinkError{Op: "rename", Old: oldp, New: newp, Err: syscall.EEXIST}
+		}
+	}
 	if e != 0 {
 		return &os.LinkError{Op: "rename", Old: oldp, New: newp, Err: e}
+	}
+	if on == nil {
+		return &os.LinkError{Op: "rename", Old: oldp, New: newp, Err: syscall.ENOENT}
 	}
 	if op == nil || np == nil {
 		return &os.LinkError{Op: "rename", Old: oldp, New: newp, Err: syscall.EBUSY}
 	}
 	if nn == on {
 		return nil
+	}
+	if on.Kind == KDir && strings.HasPrefix(nabs+"/", oabs+"/") {
+		return &os.LinkError{Op: "rename", Old: oldp, New: newp, Err: syscall.EINVAL}
 	}
 	if nn != nil {
 		if on.Kind == KDir {
